@@ -108,6 +108,8 @@ def run(ctx, rep, tier):
     # ---- PV (shared with C15) ----
     from .c15 import check_pv
     check_pv(ctx, rep, "PV", only=("Circuit::computeRowPlacementArea",))
+    # ---- MA: one margin convention for every caller of computeRowPlacementArea ----
+    check_margin_convention(ctx, rep)
     # ---- RM ----
     check_region_list(ctx, rep, prog.func1(CQ + "Circuit::computeCellExpansion"))
     # ---- SK ----
@@ -814,3 +816,43 @@ def check_non_narrowing(ctx, rep, f):
                           key="%s|width can shrink" % f.short)
         else:
             rep.unknown("NN", x, f, what, why[:400])
+
+
+# ---- MA ---------------------------------------------------------------------------------------------
+def check_margin_convention(ctx, rep):
+    """The free row area both expansion entry points cap against comes from Circuit::computeRowPlacementArea(margin). The cap
+    'placed area <= maxDensity x free area after the side margin' means the same thing in expandCellsToDensity and in
+    expandCellsByFactor only if both hand their own rowSideMargin parameter to the helper in the same form: the argument, with
+    locals expanded and the caller's parameter abstracted, must be one expression for all callers."""
+    from .common import calls_to, expand_locals
+    from ..expr import canon, children, pretty
+    rep.rule("MA", "every caller of computeRowPlacementArea passes its side-margin parameter in the same form (one unit convention for the margin)", 2)
+    forms = []
+    for f in ctx.prog.funcs.values():
+        if f.body is None or f.cls != CQ + "Circuit":
+            continue
+        pids = {p.get("id") for p in f.params}
+        for c in calls_to(f, "Circuit::computeRowPlacementArea"):
+            args = children(c)[1:]
+            if not args or args[0].get("kind") == "CXXDefaultArgExpr":
+                continue
+            form = expand_locals(ctx, f, canon(args[0]))
+
+            def absp(t):
+                if isinstance(t, tuple):
+                    if t and t[0] == "var" and t[1] in pids:
+                        return ("param",)
+                    return tuple(absp(x) for x in t)
+                return t
+            forms.append((absp(form), c, f, pretty(canon(args[0]))))
+    if len(forms) < 2:
+        rep.unknown("MA", None, None, "callers of computeRowPlacementArea with a margin", "fewer than two found (shape changed)")
+        return
+    ref = forms[0]
+    for form, c, f, txt in forms:
+        if form == ref[0]:
+            rep.holds("MA", c, f, "%s passes the margin as %s" % (f.short, txt))
+        else:
+            rep.violation("MA", c, f, "%s passes the margin as %s, %s as %s" % (f.short, txt, ref[2].short, ref[3]),
+                          "the helper removes one amount per unit of its argument: the two entry points then cap the density against different free areas, "
+                          "one of them not the area left after the side margin", key="%s|margin form differs from %s" % (f.short, ref[2].short))
